@@ -20,6 +20,14 @@ CHECKS = {
    text="L1 (MifImpl.tla: golib atomic counter, one label per atomic access, behind the replaceable local wrapper) is model-checked against the L0 max-in-flight object through a subset-construction linearizability monitor (MifMon.tla) over every interleaving of the bounded scenario; TLC then generates all operation-level interleavings plus sampled fine-grained prefixes, which are replayed into the REAL limiter under a cooperative scheduler (sync/atomic imports substituted at build time), and every recorded call/return history (also from free-running goroutines) is validated by TLC with the same monitor.",
    note="Bounds: 2-3 threads, <=2 rounds, <=2 reconfigurations in the exhaustive runs; refusals are only judged when the acquire ran alone; dispatcher exit paths are checked at HTTP level.",
    technique="TLC linearizability monitor (L1=>L0) + TLC-generated schedules replayed under a controlled scheduler + TLC trace validation"),
+ "C07": dict(cat="model_checking", design="4/C07",
+   text="Allocation.tla states the answer clauses (L0: 1<=a<=limit; no over-commit apart from floor-1 instances; no growth while over-committed; burst scaled) and the server state machine with the repaired clamp order (L1); TLC checks L1=>L0 on every transition and generates report/limit-change histories by simulation; they are replayed into a REAL limiter server (real leader election, informer, queue, store, on virtual time) with honest reports, and every real answer with the recorded quotas before/after is trace-validated by TLC against L0.",
+   note="Sequential histories only (overlapping reports are not driven yet); honest, heartbeating instances; limits 1..5000; both schema types; local and API-backed store.",
+   technique="TLC action property on the allocation state machine + TLC-simulated histories replayed into the real server + TLC trace validation"),
+ "C08": dict(cat="model_checking", design="4/C08",
+   text="GcImpl.tla models SetState (RWMutex, per-instance mutex, atomics; one label per access) and is model-checked against the L0 global-count object through a linearizability monitor (GcMon.tla) plus exact quiescent accounting, over every interleaving of fixed and random scenarios; TLC generates all operation-level interleavings and sampled fine-grained prefixes which are replayed into the REAL flow control (public store path) under a cooperative scheduler; all recorded histories (also free-running) and the quiescent DebugInfo accounting are validated by TLC.",
+   note="3-4 processes, <=2 operations each in the exhaustive runs; limit changes are never concurrent with each other (single controller worker); token-bucket clause is checked through DoAcquire on virtual time.",
+   technique="TLC linearizability monitor (L1=>L0) + TLC-generated schedules under a controlled scheduler + TLC trace validation"),
 }
 
 NOT_YET = {}
